@@ -1,4 +1,595 @@
 package main
 
-func cmdCheck(args []string) int  { return 2 }
-func cmdReplay(args []string) int { return 2 }
+import (
+	"bufio"
+	"bytes"
+	"encoding/json"
+	"flag"
+	"fmt"
+	"os"
+	"os/exec"
+	"path/filepath"
+	"sort"
+	"strconv"
+	"strings"
+	"time"
+
+	"gosx/sym"
+)
+
+// HarnessSpec describes one harness function of a property.
+type HarnessSpec struct {
+	Func     string
+	Reach    []string                          // vacuity guard: labels some feasible path must hit
+	Tune     func(c *sym.Config, thorough bool) // bounds / engine options
+	Vectors  int                               // concrete vectors for translator validation (0 = default)
+	NoNative bool                              // harness cannot run natively as is (stubbed environment)
+	Bounds   string                            // human-readable bounds (quick; thorough)
+}
+
+type PropSpec struct {
+	ID          string
+	Pkg         string // harness package pattern relative to /verif/harness
+	ReplayPkg   string // native replay main
+	Level       string
+	Harnesses   []HarnessSpec
+	Assumptions []string
+	Explanation string // for level "other"
+	Overlay     func() (map[string][]byte, error)
+}
+
+type replayFile struct {
+	Property string           `json:"property"`
+	Harness  string           `json:"harness"`
+	Tier     int              `json:"tier"`
+	Params   map[string]int64 `json:"params"`
+	Draws    []sym.Draw       `json:"draws"`
+	Expect   string           `json:"expect"`
+	Kind     string           `json:"kind,omitempty"`
+	Label    string           `json:"label,omitempty"`
+	Site     string           `json:"site,omitempty"`
+	Msg      string           `json:"msg,omitempty"`
+	Decis    string           `json:"decisions,omitempty"`
+	Solver   string           `json:"solver,omitempty"`
+}
+
+type knownFindings struct {
+	Findings []struct {
+		Property string `json:"property"`
+		Harness  string `json:"harness"`
+		Match    string `json:"match"` // substring of "<kind>:<label>"
+		What     string `json:"what"`
+	} `json:"findings"`
+	Fixed []string `json:"fixed"`
+}
+
+func loadKnown() knownFindings {
+	var k knownFindings
+	b, err := os.ReadFile("/verif/known_findings.json")
+	if err == nil {
+		json.Unmarshal(b, &k)
+	}
+	return k
+}
+
+func envInt(name string, def int64) int64 {
+	if s := os.Getenv(name); s != "" {
+		if v, err := strconv.ParseInt(s, 10, 64); err == nil {
+			return v
+		}
+	}
+	return def
+}
+
+func goEnv() []string {
+	return append(os.Environ(), "GOFLAGS=-mod=mod", "GOPROXY=off", "GOSUMDB=off", "GOTOOLCHAIN=local")
+}
+
+// prepareHarnessModule refreshes go.sum from /repo (the harness module
+// replaces go-ipfix by /repo's working tree).
+func prepareHarnessModule() error {
+	b, err := os.ReadFile("/repo/go.sum")
+	if err != nil {
+		return err
+	}
+	return os.WriteFile(filepath.Join(harnessDir, "go.sum"), b, 0o644)
+}
+
+type nativeResult struct {
+	Outcome string
+	Obs     []string
+}
+
+// buildNative compiles the replay main of a property from /repo's current tree.
+func buildNative(spec *PropSpec, workDir string, overlayFile string) (string, error) {
+	bin := filepath.Join(workDir, "replay-"+spec.ID)
+	args := []string{"build", "-tags", "verif", "-o", bin}
+	if overlayFile != "" {
+		args = append(args, "-overlay", overlayFile)
+	}
+	args = append(args, spec.ReplayPkg)
+	cmd := exec.Command("go", args...)
+	cmd.Dir = harnessDir
+	cmd.Env = goEnv()
+	out, err := cmd.CombinedOutput()
+	if err != nil {
+		return "", fmt.Errorf("native build failed: %v\n%s", err, out)
+	}
+	return bin, nil
+}
+
+func runNative(bin, harness string, files []string, timeout time.Duration) (map[string]*nativeResult, error) {
+	res := map[string]*nativeResult{}
+	remaining := files
+	for len(remaining) > 0 {
+		args := append([]string{"-timeout=" + timeout.String(), harness}, remaining...)
+		cmd := exec.Command(bin, args...)
+		var out bytes.Buffer
+		cmd.Stdout = &out
+		cmd.Stderr = &out
+		done := make(chan error, 1)
+		if err := cmd.Start(); err != nil {
+			return nil, err
+		}
+		go func() { done <- cmd.Wait() }()
+		var werr error
+		select {
+		case werr = <-done:
+		case <-time.After(timeout*time.Duration(len(remaining)) + 30*time.Second):
+			cmd.Process.Kill()
+			<-done
+			werr = fmt.Errorf("native runner timed out")
+		}
+		sc := bufio.NewScanner(&out)
+		sc.Buffer(make([]byte, 1<<20), 1<<26)
+		lastDone := ""
+		var crash []string
+		for sc.Scan() {
+			line := sc.Text()
+			switch {
+			case strings.HasPrefix(line, "OBS file="):
+				rest := strings.TrimPrefix(line, "OBS file=")
+				i := strings.IndexByte(rest, ' ')
+				f := rest[:i]
+				if res[f] == nil {
+					res[f] = &nativeResult{}
+				}
+				res[f].Obs = append(res[f].Obs, rest[i+1:])
+			case strings.HasPrefix(line, "REPLAY file="):
+				rest := strings.TrimPrefix(line, "REPLAY file=")
+				i := strings.Index(rest, " outcome=")
+				f := rest[:i]
+				if res[f] == nil {
+					res[f] = &nativeResult{}
+				}
+				res[f].Outcome = rest[i+len(" outcome="):]
+				lastDone = f
+			default:
+				crash = append(crash, line)
+			}
+		}
+		// find what is left (the process may have exited on a hang or crashed)
+		idx := -1
+		for i, f := range remaining {
+			if f == lastDone {
+				idx = i
+			}
+		}
+		next := remaining[idx+1:]
+		if len(next) > 0 && len(next) == len(remaining) {
+			// no progress: the first file crashed the process (fatal error, os.Exit)
+			msg := "crash"
+			if len(crash) > 0 {
+				msg = "crash:" + crash[0]
+			}
+			if werr != nil && strings.Contains(werr.Error(), "timed out") {
+				msg = "hang"
+			}
+			res[next[0]] = &nativeResult{Outcome: msg}
+			next = next[1:]
+		} else if len(next) > 0 && res[next[0]] != nil && res[next[0]].Outcome == "" {
+			res[next[0]].Outcome = "crash"
+			next = next[1:]
+		}
+		remaining = next
+	}
+	return res, nil
+}
+
+func violationExpect(v *sym.Violation) string {
+	switch v.Kind {
+	case "assert":
+		return "assert:" + v.Label
+	case "panic":
+		return "panic"
+	case "hang", "deadlock":
+		return "hang"
+	}
+	return v.Kind
+}
+
+func outcomeMatches(expect, got string) bool {
+	switch {
+	case expect == "panic":
+		return strings.HasPrefix(got, "panic:") || strings.HasPrefix(got, "crash")
+	case expect == "hang":
+		return got == "hang"
+	}
+	return expect == got
+}
+
+func cmdCheck(args []string) int {
+	fs := flag.NewFlagSet("check", flag.ExitOnError)
+	tier := fs.String("tier", os.Getenv("VERIF_TIER"), "quick|thorough")
+	only := fs.String("only", "", "run only this harness function")
+	workers := fs.Int("workers", 16, "workers")
+	keep := fs.Bool("keep", false, "keep work dir")
+	noEvidence := fs.Bool("no-evidence", false, "do not write the evidence file")
+	fs.Parse(reorder(args))
+	if fs.NArg() < 1 {
+		usage()
+	}
+	id := fs.Arg(0)
+	spec := findProp(id)
+	if spec == nil {
+		fmt.Fprintf(os.Stderr, "unknown property %s\n", id)
+		return 2
+	}
+	thorough := *tier == "thorough"
+	tierName := "quick"
+	if thorough {
+		tierName = "thorough"
+	}
+	seed := envInt("VERIF_SEED", 1)
+	t0 := time.Now()
+	known := loadKnown()
+
+	if err := prepareHarnessModule(); err != nil {
+		fmt.Fprintln(os.Stderr, "INCONCLUSIVE:", err)
+		return 2
+	}
+	workDir := filepath.Join("/verif/.work", fmt.Sprintf("%s-%d", id, os.Getpid()))
+	os.MkdirAll(workDir, 0o755)
+	if !*keep {
+		defer os.RemoveAll(workDir)
+	}
+	var overlay map[string][]byte
+	overlayFile := ""
+	if spec.Overlay != nil {
+		var err error
+		overlay, err = spec.Overlay()
+		if err != nil {
+			fmt.Fprintln(os.Stderr, "INCONCLUSIVE: overlay:", err)
+			return 2
+		}
+		// go build -overlay file
+		repl := map[string]string{}
+		for virt, content := range overlay {
+			real := filepath.Join(workDir, strings.ReplaceAll(strings.TrimPrefix(virt, "/"), "/", "_"))
+			os.WriteFile(real, content, 0o644)
+			repl[virt] = real
+		}
+		ob, _ := json.Marshal(map[string]interface{}{"Replace": repl})
+		overlayFile = filepath.Join(workDir, "overlay.json")
+		os.WriteFile(overlayFile, ob, 0o644)
+	}
+
+	// native build in parallel with the load
+	type buildRes struct {
+		bin string
+		err error
+	}
+	bch := make(chan buildRes, 1)
+	go func() {
+		bin, err := buildNative(spec, workDir, overlayFile)
+		bch <- buildRes{bin, err}
+	}()
+
+	prog, err := sym.Load(harnessDir, overlay, spec.Pkg)
+	if err != nil {
+		fmt.Fprintln(os.Stderr, "INCONCLUSIVE: load:", err)
+		return 2
+	}
+	fmt.Printf("[%s %s] loaded %d packages from /repo working tree: load %.1fs, ssa %.1fs\n", id, tierName, prog.NumPkgs, prog.LoadTime.Seconds(), prog.SSATime.Seconds())
+
+	ev := newEvidence(id, tierName, seed, spec)
+	problems := 0
+	var pendingViol []*sym.Violation
+	type concRun struct {
+		h      HarnessSpec
+		traces []sym.ConcTrace
+		params map[string]int64
+	}
+	var concRuns []concRun
+
+	for _, h := range spec.Harnesses {
+		if *only != "" && h.Func != *only {
+			continue
+		}
+		cfg := defaultConfig()
+		cfg.Workers = *workers
+		cfg.Seed = seed
+		if thorough {
+			cfg.Tier = 1
+			cfg.SecondSolver = "cvc5"
+		}
+		if h.Tune != nil {
+			h.Tune(&cfg, thorough)
+		}
+		e := sym.NewEngine(prog.Prog, cfg)
+		if err := e.Bind(prog, h.Func); err != nil {
+			fmt.Fprintln(os.Stderr, "INCONCLUSIVE:", err)
+			return 2
+		}
+		th := time.Now()
+		if err := e.Explore(); err != nil {
+			fmt.Fprintf(os.Stderr, "INCONCLUSIVE: %s: %v\n", h.Func, err)
+			return 2
+		}
+		s := e.Stats
+		fmt.Printf("[%s] %s: paths=%d %v decisions=%d obligations=%d (unsat %d, sat %d; folded %d) queries=%d solver=%.1fs wall=%.1fs\n",
+			id, h.Func, s.Paths, s.PathsByOutcome, s.Decisions, s.Obligations, s.ObligUnsat, s.ObligSat, s.ObligFolded, s.SolverQueries, s.SolverTime.Seconds(), time.Since(th).Seconds())
+		for _, l := range h.Reach {
+			if e.Reach[l] == 0 {
+				fmt.Printf("INCONCLUSIVE: %s: reach label %q was hit by no feasible path (vacuity guard)\n", h.Func, l)
+				problems++
+			}
+		}
+		for _, p := range e.Problems {
+			fmt.Printf("INCONCLUSIVE: %s: %s\n", h.Func, p)
+			problems++
+		}
+		ev.addHarness(h, e, cfg)
+		var keys []string
+		for k := range e.Violations {
+			keys = append(keys, k)
+		}
+		sort.Strings(keys)
+		for _, k := range keys {
+			pendingViol = append(pendingViol, e.Violations[k])
+		}
+		// translator validation: concrete vectors through the interpreter
+		if !h.NoNative {
+			k := h.Vectors
+			if k == 0 {
+				k = 12
+				if thorough {
+					k = 40
+				}
+			}
+			ce := sym.NewEngine(prog.Prog, cfg)
+			ce.Bind(prog, h.Func)
+			trs, err := ce.RunConcrete(k, nil)
+			if err != nil {
+				fmt.Printf("INCONCLUSIVE: %s: concrete mode: %v\n", h.Func, err)
+				problems++
+			} else {
+				for _, p := range ce.Problems {
+					fmt.Printf("INCONCLUSIVE: %s (concrete mode): %s\n", h.Func, p)
+					problems++
+				}
+				concRuns = append(concRuns, concRun{h, trs, cfg.Params})
+			}
+		}
+	}
+
+	br := <-bch
+	if br.err != nil {
+		fmt.Println("INCONCLUSIVE:", br.err)
+		problems++
+	}
+
+	// translator validation: same vectors through the native build
+	tierNum := 0
+	if thorough {
+		tierNum = 1
+	}
+	if br.err == nil {
+		for _, cr := range concRuns {
+			var files []string
+			for i, tr := range cr.traces {
+				f := filepath.Join(workDir, fmt.Sprintf("vec-%s-%d.json", cr.h.Func, i))
+				rf := replayFile{Property: id, Harness: cr.h.Func, Tier: tierNum, Params: cr.params, Draws: tr.Draws, Expect: tr.Outcome}
+				b, _ := json.Marshal(rf)
+				os.WriteFile(f, b, 0o644)
+				files = append(files, f)
+			}
+			res, err := runNative(br.bin, cr.h.Func, files, 30*time.Second)
+			if err != nil {
+				fmt.Printf("INCONCLUSIVE: native run: %v\n", err)
+				problems++
+				continue
+			}
+			for i, tr := range cr.traces {
+				r := res[files[i]]
+				if r == nil {
+					fmt.Printf("INCONCLUSIVE: translator validation: no native result for vector %d of %s\n", i, cr.h.Func)
+					problems++
+					continue
+				}
+				want := tr.Outcome
+				if want == "assume" {
+					want = "assume-failed"
+				}
+				ok := r.Outcome == want || (want == "panic" && strings.HasPrefix(r.Outcome, "panic:")) ||
+					(want == "done" && strings.HasPrefix(r.Outcome, "assert:"))
+				if ok && strings.Join(r.Obs, "\n") != strings.Join(tr.Observes, "\n") {
+					ok = false
+				}
+				if !ok {
+					fmt.Printf("INCONCLUSIVE: translator validation mismatch on %s vector %d: interpreter outcome=%s obs=%q, native outcome=%s obs=%q\n",
+						cr.h.Func, i, tr.Outcome, tr.Observes, r.Outcome, r.Obs)
+					problems++
+					os.MkdirAll(filepath.Join("/verif/replays", id), 0o755)
+					b, _ := os.ReadFile(files[i])
+					os.WriteFile(filepath.Join("/verif/replays", id, fmt.Sprintf("mismatch-%s-%d.json", cr.h.Func, i)), b, 0o644)
+				} else {
+					ev.TracesValidated++
+				}
+			}
+		}
+	}
+
+	// counterexamples: replay against the real build before reporting
+	violations := 0
+	knownHits := 0
+	if len(pendingViol) > 0 && br.err == nil {
+		os.MkdirAll(filepath.Join("/verif/replays", id), 0o755)
+		for i, v := range pendingViol {
+			if i >= 12 {
+				fmt.Printf("NOTE: %d further counterexamples not replayed\n", len(pendingViol)-i)
+				break
+			}
+			hfn := v.Harness[strings.IndexByte(v.Harness, '.')+1:]
+			path := filepath.Join("/verif/replays", id, fmt.Sprintf("cex-%s-%d.json", hfn, i))
+			rf := replayFile{Property: id, Harness: hfn, Tier: tierNum, Params: map[string]int64{}, Draws: v.Draws, Expect: violationExpect(v),
+				Kind: v.Kind, Label: v.Label, Site: v.Site, Msg: v.Msg, Decis: fmt.Sprint(v.Decisions), Solver: v.Solver}
+			b, _ := json.MarshalIndent(rf, "", " ")
+			os.WriteFile(path, b, 0o644)
+			noNative := false
+			for _, h := range spec.Harnesses {
+				if h.Func == hfn && h.NoNative {
+					noNative = true
+				}
+			}
+			what := fmt.Sprintf("%s %s:%s at %s - %s", v.Harness, v.Kind, v.Label, v.Site, v.Msg)
+			if noNative {
+				fmt.Printf("INCONCLUSIVE: counterexample for %s cannot be replayed natively (stubbed environment): %s\n", id, what)
+				problems++
+				continue
+			}
+			res, err := runNative(br.bin, hfn, []string{path}, 20*time.Second)
+			got := "no-result"
+			if err == nil && res[path] != nil {
+				got = res[path].Outcome
+			}
+			ev.Replays++
+			if !outcomeMatches(rf.Expect, got) {
+				fmt.Printf("INCONCLUSIVE: counterexample did not reproduce natively (expected %s, got %s): %s [%s]\n", rf.Expect, got, what, path)
+				problems++
+				continue
+			}
+			// known finding?
+			isKnown := false
+			for _, k := range known.Findings {
+				if k.Property == id && (k.Harness == "" || k.Harness == hfn) && strings.Contains(v.Kind+":"+v.Label, k.Match) {
+					fmt.Printf("KNOWN-FINDING: property=%s %s\n", id, k.What)
+					isKnown = true
+					knownHits++
+					break
+				}
+			}
+			if isKnown {
+				continue
+			}
+			fmt.Printf("counterexample reproduced natively (%s): %s\n", got, what)
+			fmt.Printf("VIOLATION property=%s replay=%s\n", id, path)
+			violations++
+		}
+	} else if len(pendingViol) > 0 {
+		problems++
+	}
+
+	ev.Violations = violations
+	ev.KnownFindings = knownHits
+	ev.Wall = time.Since(t0).Seconds()
+	ev.Problems = problems
+	if !*noEvidence {
+		if err := ev.write(); err != nil {
+			fmt.Println("INCONCLUSIVE: evidence:", err)
+			problems++
+		}
+	}
+	fmt.Printf("[%s %s] done in %.1fs: violations=%d known=%d problems=%d\n", id, tierName, time.Since(t0).Seconds(), violations, knownHits, problems)
+	if violations > 0 {
+		return 1
+	}
+	if problems > 0 {
+		return 2
+	}
+	return 0
+}
+
+// reorder moves flags before positional args so "check C15 --tier quick" works.
+func reorder(args []string) []string {
+	var flags, pos []string
+	for i := 0; i < len(args); i++ {
+		a := args[i]
+		if strings.HasPrefix(a, "-") {
+			flags = append(flags, a)
+			if !strings.Contains(a, "=") && i+1 < len(args) && !strings.HasPrefix(args[i+1], "-") {
+				// flag with separate value (bool flags use =)
+				name := strings.TrimLeft(a, "-")
+				if name != "keep" && name != "no-evidence" {
+					flags = append(flags, args[i+1])
+					i++
+				}
+			}
+		} else {
+			pos = append(pos, a)
+		}
+	}
+	return append(flags, pos...)
+}
+
+func cmdReplay(args []string) int {
+	if len(args) < 1 {
+		usage()
+	}
+	path := args[0]
+	b, err := os.ReadFile(path)
+	if err != nil {
+		fmt.Fprintln(os.Stderr, err)
+		return 2
+	}
+	var rf replayFile
+	if err := json.Unmarshal(b, &rf); err != nil {
+		fmt.Fprintln(os.Stderr, err)
+		return 2
+	}
+	spec := findProp(rf.Property)
+	if spec == nil {
+		fmt.Fprintln(os.Stderr, "replay file names unknown property", rf.Property)
+		return 2
+	}
+	if err := prepareHarnessModule(); err != nil {
+		fmt.Fprintln(os.Stderr, err)
+		return 2
+	}
+	workDir := filepath.Join("/verif/.work", fmt.Sprintf("replay-%d", os.Getpid()))
+	os.MkdirAll(workDir, 0o755)
+	defer os.RemoveAll(workDir)
+	overlayFile := ""
+	if spec.Overlay != nil {
+		overlay, err := spec.Overlay()
+		if err != nil {
+			fmt.Fprintln(os.Stderr, err)
+			return 2
+		}
+		repl := map[string]string{}
+		for virt, content := range overlay {
+			real := filepath.Join(workDir, strings.ReplaceAll(strings.TrimPrefix(virt, "/"), "/", "_"))
+			os.WriteFile(real, content, 0o644)
+			repl[virt] = real
+		}
+		ob, _ := json.Marshal(map[string]interface{}{"Replace": repl})
+		overlayFile = filepath.Join(workDir, "overlay.json")
+		os.WriteFile(overlayFile, ob, 0o644)
+	}
+	bin, err := buildNative(spec, workDir, overlayFile)
+	if err != nil {
+		fmt.Fprintln(os.Stderr, err)
+		return 2
+	}
+	res, err := runNative(bin, rf.Harness, []string{path}, 20*time.Second)
+	if err != nil || res[path] == nil {
+		fmt.Fprintln(os.Stderr, "native run failed:", err)
+		return 2
+	}
+	fmt.Printf("REPLAY outcome=%s (recorded expectation %s)\n", res[path].Outcome, rf.Expect)
+	if outcomeMatches(rf.Expect, res[path].Outcome) {
+		fmt.Printf("VIOLATION property=%s replay=%s\n", rf.Property, path)
+		return 1
+	}
+	return 0
+}
